@@ -1,4 +1,5 @@
 (* Extract_mgr.v — extraction of the cache-manager access model (ExtrOcamlBasic only). *)
 Require Import ExtrOcamlBasic.
 Require Import SquidV.Bytes SquidV.MgrModel.
-Extraction "m_mgr.ml" handle effective_uri acl_manager mgr_regex_match decode_or_dupe supplied_password parse_url.
+Extraction "m_mgr.ml" handle effective_uri acl_manager mgr_regex_match decode_or_dupe supplied_password parse_url
+  query_parse_top rfc1738_unescape.
